@@ -12,7 +12,7 @@ import numpy as np
 from . import boot
 
 FAMILIES = ['mrc', 'noise', 'smallint', 'pwl', 'inv', 'expdecay', 'const',
-            'collinear0', 'stairs', 'quad', 'testvec', 'trace']
+            'collinear0', 'stairs', 'quad', 'testvec', 'trace', 'sigmoid']
 
 HOSTILE = {'const', 'collinear0', 'smallint', 'stairs'}
 
@@ -143,6 +143,19 @@ def curve(rng, n=None, family=None, nmax=80, nmin=2):
         y = a * (t - rng.uniform(-0.2, 1.2)) ** 2
         if rng.random() < 0.5:
             y = y.max() - y
+    elif fam == 'sigmoid':
+        # S-shaped (logistic) curves: balanced around their chord, so every "which side of the chord?" vote is a near tie
+        t = (x - x[0]) / max(x[-1] - x[0], 1e-300)
+        k = float(rng.uniform(4.0, 40.0))
+        mid = 0.5 if rng.random() < 0.6 else float(rng.uniform(0.3, 0.7))
+        if mid == 0.5:
+            # exactly balanced: evenly spaced samples of a curve that is point-symmetric about the middle of its chord
+            x = np.arange(n, dtype=float) * float([1.0, 1.0, 0.5, 4.0][int(rng.integers(0, 4))]) + float(rng.integers(0, 4))
+            t = (x - x[0]) / max(x[-1] - x[0], 1e-300)
+        y = 1.0 / (1.0 + np.exp(-k * (t - mid)))
+        if rng.random() < 0.5:
+            y = 1.0 - y
+        y = y * float(10.0 ** int(rng.integers(-2, 4)))
     elif fam == 'testvec':
         v = np.array(TESTVECS[int(rng.integers(0, len(TESTVECS)))], dtype=float)
         return np.ascontiguousarray(v), {'family': fam, 'xpat': -1}
